@@ -45,6 +45,11 @@ func in(class string, b []byte) Item {
 
 var narrowRunes = []string{"a", "b", "x", "Z", "0", "~", "!", " ", "é", "ü", "ß", "€", "λ", "Ж", "→"}
 var wideRunes = []string{"🐹", "🎉", "中", "文", "한", "あ", "Ｗ", "⸺", "⸻"} // the last two are 3 and 4 cells wide
+// characters whose UTF-8 encoding contains the byte 0x9c (the 8-bit ST) in its last or in a middle
+// position, one for every kind of lead byte (C2, C3, DF; E0, E1, E2, ED, EF; F0, F1, F3, F4)
+var nineCChars = []string{"\u009c", "Ü", "\u07dc", "\u091c", "\u101c", "✜", "\ud01c", "\uff1c", "😜", "🌜", "\U0004001c", "\U000c001c", "\U0010001c",
+	"✅", "\u0700", "\U0001c000", "\U00010700", "\U0010070c"}
+
 var zeroRunes = []string{"́", "‍", "️", "­"}
 
 func (g *genCtx) param() string {
@@ -281,6 +286,9 @@ func (g *genCtx) item(class string) Item {
 		if r.chance(1, 4) {
 			payload = append(payload, pick(r, [][]byte{[]byte("✜"), []byte("Ü"), []byte("œ"), []byte("🌜"), []byte("😜x"), []byte("𐀜"), {27, 'x'}, []byte(";a;b"), []byte("\\"), {0xc2, 0x9c}})...)
 		}
+		if r.chance(1, 4) {
+			payload = append(payload, []byte(pick(r, nineCChars)+pick(r, []string{"", "x", "ab"}))...)
+		}
 		if r.chance(1, 25) {
 			// a long string: around the reader's buffer sizes, and well beyond
 			n := pick(r, []int{4090, 4093, 4094, 4095, 4096, 4097, 4100, 5000, 8190, 8192, 8195}) + r.intn(3)
@@ -308,6 +316,9 @@ func (g *genCtx) item(class string) Item {
 		payload := g.text(r.intn(8), true, false)
 		if r.chance(1, 3) {
 			payload = append(payload, pick(r, [][]byte{[]byte("✜"), []byte("🌜"), []byte("😜q"), []byte("Ü"), {7}, {27, 'x'}, []byte("$q"), {10}})...)
+		}
+		if r.chance(1, 3) {
+			payload = append(payload, []byte(pick(r, nineCChars)+pick(r, []string{"", "q", "ab"}))...)
 		}
 		if r.chance(1, 25) {
 			n := pick(r, []int{4090, 4094, 4095, 4096, 4097, 5000, 8192}) + r.intn(3)
@@ -569,6 +580,35 @@ func (g *genCtx) macro(name string) []Item {
 				}
 			}
 		}
+	case "mark-then-erase":
+		// a combining mark that arrives on its own after a cursor move joins a cell of a BLANK run
+		// (or of text); then an erase with the attributes the cell already has covers that cell
+		// and stays inside the run: the mark must go
+		{
+			y := r.intn(g.h)
+			if r.chance(1, 2) {
+				goTo(y, 0)
+				add("erase", "\x1b[2K")
+			}
+			x := 1 + r.intn(max(g.w-1, 1))
+			goTo(y, x)
+			add("textzero", pick(r, []string{"\u0301", "\u0308", "\u20dd", "\ufe0f", "\u200d"}))
+			goTo(y, max(x-1-r.intn(2), 0))
+			add("erase", pick(r, []string{"\x1b[X", "\x1b[2X", "\x1b[3X", "\x1b[K", "\x1b[1K", "\x1b[J", "\x1b[1J", "\x1b[P"}))
+		}
+	case "query-in-string":
+		// a character whose encoding contains 0x9c, then a query, inside an OSC or DCS string: the
+		// string is consumed whole and the query inside it is not answered; the one after it is
+		{
+			q := pick(r, []string{"\x1b[6n", "\x1b[c", "\x1b[5n", "\x1b[?u", "\x1b[>c"})
+			intro := pick(r, []string{"\x1b]2;", "\x1b]0;", "\x1bP", "\x1b]7;", "\x1bP$q"})
+			term := pick(r, []string{"\a", "\x1b\\", "\x9c"})
+			if strings.HasPrefix(intro, "\x1bP") && term == "\a" {
+				term = "\x1b\\"
+			}
+			add(pick(r, []string{"osc", "dcs"}), intro+string(g.text(r.intn(3), false, false))+pick(r, nineCChars)+" "+q[1:]+term)
+			add("query", pick(r, []string{"\x1b[5n", "\x1b[6n"}))
+		}
 	case "indicator-after-control":
 		// an unpaired regional indicator (or a dangling joiner), a control function, then another
 		// indicator / an emoji somewhere else: each is a character of its own
@@ -729,7 +769,7 @@ func (g *genCtx) macro(name string) []Item {
 }
 
 var macroNames = []string{"save-resize-restore", "outside-region", "alt-roundtrip", "wide-edges", "autowrap-corners", "wide-splice",
-	"resize-wide-rows", "mark-after-motion", "alt-text-edge", "erase-with-region", "erase-after-scroll", "save-alt-restore", "resize-twice-then-edit", "indicator-after-control", "deep-kbd-stack", "xtmodkeys"}
+	"resize-wide-rows", "mark-after-motion", "alt-text-edge", "erase-with-region", "erase-after-scroll", "save-alt-restore", "resize-twice-then-edit", "indicator-after-control", "deep-kbd-stack", "xtmodkeys", "mark-then-erase", "query-in-string"}
 
 func (g *genCtx) sizePick() (int, int) {
 	r := g.r
@@ -811,17 +851,17 @@ var profiles = map[string]*profile{
 		minLen: 4, maxLen: 40, grid: 30, chunks: []int{0, 1, 3}},
 	"C04": {name: "C04", gmode: 8, macros: 8, macroSet: []string{"outside-region", "autowrap-corners", "save-resize-restore", "save-alt-restore"}, weights: map[string]int{"cursor": 40, "c0": 15, "index": 12, "goto": 6, "margins": 8, "text": 10, "textwide": 3, "wrap": 3, "lf": 5, "crlf": 3, "manyparams": 2, "altscreen": 2},
 		minLen: 4, maxLen: 40, grid: 30, chunks: []int{0, 1}},
-	"C05": {name: "C05", gmode: 12, macros: 10, macroSet: []string{"wide-edges", "wide-splice", "erase-with-region", "erase-after-scroll", "resize-twice-then-edit"}, weights: map[string]int{"erase": 35, "goto": 20, "text": 15, "textwide": 15, "textlong": 6, "sgr": 8, "wrap": 2, "crlf": 3, "margins": 3, "scroll": 3, "resize": 2, "textzero": 4},
+	"C05": {name: "C05", gmode: 12, macros: 10, macroSet: []string{"wide-edges", "wide-splice", "erase-with-region", "erase-after-scroll", "resize-twice-then-edit", "mark-then-erase"}, weights: map[string]int{"erase": 35, "goto": 20, "text": 15, "textwide": 15, "textlong": 6, "sgr": 8, "wrap": 2, "crlf": 3, "margins": 3, "scroll": 3, "resize": 2, "textzero": 4},
 		minLen: 5, maxLen: 40, grid: 30, chunks: []int{0, 1}},
 	"C06": {name: "C06", gmode: 10, macros: 10, macroSet: []string{"outside-region", "autowrap-corners"}, weights: map[string]int{"scroll": 25, "margins": 14, "index": 14, "lf": 8, "goto": 12, "text": 12, "textwide": 5, "textlong": 6, "wrap": 4, "sgr": 4, "crlf": 4, "resize": 3},
 		minLen: 5, maxLen: 40, grid: 30, chunks: []int{0, 1}},
 	"C07": {name: "C07", macros: 6, macroSet: []string{"wide-edges", "wide-splice"}, weights: map[string]int{"sgr": 40, "text": 20, "textwide": 6, "erase": 12, "goto": 10, "scroll": 3, "manyparams": 3, "crlf": 3, "resize": 2, "altscreen": 2},
 		minLen: 5, maxLen: 40, grid: 30, chunks: []int{0, 1}},
-	"C09": {name: "C09", macros: 5, macroSet: []string{"xtmodkeys"}, weights: map[string]int{"oddcsi": 25, "esc": 15, "osc": 15, "dcs": 10, "text": 20, "textwide": 4, "manyparams": 4, "sgr": 3, "cursor": 4, "query": 3, "mode": 3, "kbd": 3},
+	"C09": {name: "C09", macros: 6, macroSet: []string{"xtmodkeys", "query-in-string"}, weights: map[string]int{"oddcsi": 25, "esc": 15, "osc": 15, "dcs": 10, "text": 20, "textwide": 4, "manyparams": 4, "sgr": 3, "cursor": 4, "query": 3, "mode": 3, "kbd": 3},
 		minLen: 3, maxLen: 30, grid: 10, chunks: []int{0, 1, 2, 3}},
 	"C10": {name: "C10", gmode: 12, macros: 8, weights: withWeights(map[string]int{"altscreen": 6, "scroll": 10, "index": 8, "textwide": 15, "lf": 8, "resize": 4, "textzero": 3}),
 		minLen: 5, maxLen: 50, grid: 30, chunks: []int{0, 1}},
-	"C14": {name: "C14", shortWrites: 35, macros: 8, macroSet: []string{"alt-roundtrip", "save-resize-restore", "deep-kbd-stack"}, weights: withWeights(map[string]int{"query": 25, "kbd": 8, "altscreen": 4, "goto": 14, "resize": 3}),
+	"C14": {name: "C14", shortWrites: 35, macros: 8, macroSet: []string{"alt-roundtrip", "save-resize-restore", "deep-kbd-stack", "query-in-string"}, weights: withWeights(map[string]int{"query": 25, "kbd": 8, "altscreen": 4, "goto": 14, "resize": 3}),
 		minLen: 4, maxLen: 40, grid: 20, chunks: []int{0, 1, 3}},
 	"C17": {name: "C17", macros: 12, macroSet: []string{"alt-roundtrip"}, weights: map[string]int{"mode": 30, "altscreen": 15, "text": 15, "textwide": 4, "goto": 8, "kbd": 8, "margins": 5, "wrap": 6, "sgr": 4, "erase": 4, "scroll": 3, "lf": 4, "resize": 4},
 		minLen: 5, maxLen: 40, grid: 20, chunks: []int{0, 1}},
